@@ -3,7 +3,9 @@
    the segment sizes used by MultiHash.v are regenerated from SegmentedArray.h on every run (Gen_Segments.v),
    and all models are run against the real momo::DataTable / DataIndexes on every run. *)
 From Coq Require Import List ZArith Bool Permutation.
-From C07 Require Import TableSpec TableProofs NumModel MultiHash MultiHashProofs SegProofs IndexModel IndexProofs AtomicProofs RefineProofs ConsProofs ReachProofs ConflictProofs TableOps SelectionModel ProjectModel GroupModel.
+From C07 Require Import TableSpec TableProofs NumModel MultiHash MultiHashProofs SegProofs IndexModel IndexProofs AtomicProofs RefineProofs ConsProofs ReachProofs ConflictProofs FrameProofs TableOps SelectionModel ProjectModel GroupModel.
+From Coq Require Import Sorted.
+From C07 Require Gen_Segments Gen_MultiHashOps.
 Import ListNotations.
 
 (* For EVERY history of table operations starting from the empty table (adds, inserts, whole-row and
@@ -506,3 +508,48 @@ Print Assumptions C07_selection_group_adjacent_permutation.
 Theorem C07_selection_group_shortcut_refuted : exists l, ~ grp (S (length l)) (pvsort_run_shortcut l).
 Proof. exact group_shortcut_refuted. Qed.
 Print Assumptions C07_selection_group_shortcut_refuted.
+
+(* ---------------------------------------------------------------- round 7: model growth *)
+
+(* Gen_MultiHashOps.pvAdd is REGENERATED from DataIndexes::MultiHash::pvAdd on every run (the arguments of the pvSortRaws call
+   are recorded; (0, 0) = no call).  For every array size below max_vals it is this wrap-free rule: at a positive multiple
+   of 64 whose GetSegItemIndexes item index is 0, sort [n - GetItemCount(segIndex - 1), n); otherwise do not sort. *)
+Theorem C07_generated_pvadd_decision :
+  forall z, (0 <= z < Z.of_nat max_vals)%Z ->
+  Gen_MultiHashOps.pvAdd 0 0 z =
+  (if Z.ltb 0 z && Z.eqb (z mod 64) 0
+   then let p := Gen_Segments.GetSegItemIndexes z in
+        if Z.eqb (snd p) 0 then (z - Gen_Segments.GetItemCount (fst p - 1), z)%Z else (0, 0)%Z
+   else (0, 0)%Z).
+Proof. exact pvAdd_range_Z. Qed.
+Print Assumptions C07_generated_pvadd_decision.
+
+(* MultiHash.pv_add - the function every theorem above about Add / update / reach is stated for, and the one extracted and
+   run against the real DataIndexes - takes its decision from that generated function; it equals the former hand
+   transcription of pvAdd (refinement of the hand model by the generated code) *)
+Theorem C07_pvadd_generated_refines_hand :
+  forall raw vals, length vals < max_vals -> pv_add raw vals = pv_add_hand raw vals.
+Proof. exact pv_add_is_hand. Qed.
+Print Assumptions C07_pvadd_generated_refines_hand.
+
+(* FRAME: every member function of MultiHash that can write a key's value array keeps the sorted-segment invariant on every
+   key, assuming nothing about the rest of the index state (AcceptRemove under its own MOMO_ASSERT) *)
+Theorem C07_multihash_ops_frame :
+  forall o m, msmall m -> mop_assert o m -> mvok m -> mvok (mapply o m).
+Proof. exact multihash_ops_frame. Qed.
+Print Assumptions C07_multihash_ops_frame.
+
+(* Selection::Group as a whole (HashSorter::Sort = radix sort by hash code + groupFunc on every run of equal codes): for EVERY
+   hash-sorted arrangement s of the selection l - in particular the one RadixSorter produced (property C17) - grouping the
+   runs longer than 2 gives a permutation of l in which equal keys are adjacent *)
+Theorem C07_selection_group_whole :
+  forall (h : K -> Z) l s, Permutation l s -> StronglySorted (hle h) s ->
+  Permutation (hash_group h s) l /\ forall f, grp f (hash_group h s).
+Proof. exact hash_group_spec. Qed.
+Print Assumptions C07_selection_group_whole.
+
+(* ... and the guard `count > 2` of HashSorter::pvSort's groupFunc is tight *)
+Theorem C07_selection_group_guard_refuted :
+  exists h s, StronglySorted (hle h) s /\ ~ grp (S (length s)) (concat (map group_func3 (runs h s))).
+Proof. exact group_guard_refuted. Qed.
+Print Assumptions C07_selection_group_guard_refuted.
